@@ -3,6 +3,8 @@ from __future__ import annotations
 
 import ast
 
+from ..pattern import pmatch, pfind, pall
+
 from ..absval import Lin, Undecided, linform
 from ..core import (AnalysisError, call_name, dotted, is_const, kwarg, local_defs, norm, origin, parent_map,
                     walk_local)
@@ -63,13 +65,18 @@ def cache(rep):
     # the hit path must not return a value for a different object: either retention (checked above) or identity check
     defs = local_defs(fi.node)
     pm = parent_map(fi.node)
-    hits = [r for r in returns_of(fi.node) if r.value is not None and ("hit" in norm(r.value) or "_cache[" in norm(r.value))]
+    def _from_cache(e):
+        o = origin(defs, e)
+        return any(isinstance(x, ast.Attribute) and x.attr == "_cache" for x in ast.walk(o)) or any(
+            isinstance(x, ast.Attribute) and x.attr == "_cache" for y in ast.walk(e) if isinstance(y, ast.Name)
+            for d_ in defs.get(y.id, []) if d_.value is not None for x in ast.walk(d_.value))
+    hits = [r for r in returns_of(fi.node) if r.value is not None and _from_cache(r.value)]
     for r in hits:
         gs = [norm(t) for t, s_ in guards_of(pm, r, fi.node) if s_]
         rep.ob("O14.1", "R1", fi, bool(gs), f"{norm(r)} under {gs}", "a cached result is returned only on a guarded hit", node=r)
     # cache off => plain execution
     first = [st for st in fi.node.body if isinstance(st, ast.If) and norm(st.test) == "self._cache is None"]
-    ok = bool(first) and isinstance(first[0].body[0], ast.Return) and norm(first[0].body[0].value) == "self._execute(substrate, rule, inv)"
+    ok = bool(first) and isinstance(first[0].body[0], ast.Return) and norm(first[0].body[0].value) == f"self._execute({', '.join(fi.params[1:4])})"
     rep.ob("O14.1", "R1", fi, ok, first[0].test if first else "cache off", "with the cache off the rule is simply applied")
     # eviction only removes entries
     ev = [c for c in walk_local(fi.node) if isinstance(c, ast.Call) and norm(c.func) == "self._cache.pop"]
@@ -77,7 +84,7 @@ def cache(rep):
     ex = rep.f(BR, "_RuleApplier._execute")
     rets = returns_of(ex.node)
     c = rets[-1].value if rets else None
-    ok = isinstance(c, ast.Call) and call_name(c) == "_apply_rule_raw" and [norm(a) for a in c.args[:3]] == ["substrate", "rule", "inv"]
+    ok = isinstance(c, ast.Call) and call_name(c) == "_apply_rule_raw" and [norm(a) for a in c.args[:3]] == ex.params[1:4]
     rep.ob("O14.1", "R1", ex, ok, c if c is not None else "return", "cached and uncached paths run the same computation on (substrate, rule, invert)")
 
 
@@ -97,12 +104,26 @@ def _parallel_constructs(fi):
             ras = kwarg(c.func, "return_as")
             out.append(("joblib", c, callee, args, norm(g.generators[0].iter), norm(g.generators[0].target), ras))
         # executor.map(f, xs)
-        if isinstance(c.func, ast.Attribute) and c.func.attr == "map" and len(c.args) >= 2 and norm(c.func.value) in ("ex", "executor", "pool", "self._executor"):
+        execs = _executor_names(fi)
+        if isinstance(c.func, ast.Attribute) and c.func.attr == "map" and len(c.args) >= 2 and norm(c.func.value) in execs:
             out.append(("executor.map", c, norm(c.args[0]), ["<item>"], norm(c.args[1]), "<item>", None))
         if isinstance(c.func, (ast.Attribute, ast.Name)) and call_name(c) in UNORDERED:
             out.append(("unordered", c, call_name(c), [], "", "", None))
-        if isinstance(c.func, ast.Attribute) and c.func.attr == "submit" and norm(c.func.value) in ("ex", "executor", "pool"):
+        if isinstance(c.func, ast.Attribute) and c.func.attr == "submit" and norm(c.func.value) in execs:
             out.append(("submit", c, norm(c.args[0]) if c.args else None, [], "", "", None))
+    return out
+
+
+def _executor_names(fi):
+    """names bound to a concurrent.futures executor in this function: `with XExecutor(..) as n`, `n = XExecutor(..)`, self._executor"""
+    out = {"self._executor"}
+    for n in walk_local(fi.node):
+        if isinstance(n, ast.With):
+            for it in n.items:
+                if isinstance(it.context_expr, ast.Call) and call_name(it.context_expr).endswith("Executor") and it.optional_vars is not None:
+                    out.add(norm(it.optional_vars))
+        if isinstance(n, ast.Assign) and isinstance(n.value, ast.Call) and call_name(n.value).endswith("Executor"):
+            out.add(norm(n.targets[0]))
     return out
 
 
@@ -160,16 +181,22 @@ def agreement(rep, sites):
     else:
         rep.ob("O14.3", "R8", fi, None, "_apply_bulk", "serial/parallel pair not recognised", node=fi.node)
     defs = local_defs(fi.node)
-    flat = origin(defs, ast.Name(id="flat", ctx=ast.Load()))
-    ok = isinstance(flat, ast.ListComp) and norm(flat).replace(" ", "") == "[xforsubinnestedforxinsub]"
-    rep.ob("O14.3", "R8", fi, ok, flat, "per-rule results are concatenated in rule order")
     rets = returns_of(fi.node)
-    ok = bool(rets) and norm(rets[-1].value) == "_dedupe(flat) if self._dedupe else flat"
+    rm = pmatch("_dedupe($flat) if self._dedupe else $flat", rets[-1].value) if rets else None
+    flat = origin(defs, ast.Name(id=rm["flat"], ctx=ast.Load())) if rm else None
+    fm = pmatch("[$x for $sub in $nested for $x in $sub]", flat) if flat is not None else None
+    # the concatenated list is the one both branches assign
+    ok = fm is not None and bool(serial) and any(d_.value is serial[0] for d_ in defs.get(fm["nested"], [])) and \
+        bool(pcs) and any(d_.value is pcs[0][1] for d_ in defs.get(fm["nested"], []))
+    rep.ob("O14.3", "R8", fi, ok, flat if flat is not None else "flat", "per-rule results are concatenated in rule order")
+    ok = rm is not None
     rep.ob("O14.3", "R8", fi, ok, rets[-1] if rets else "return", "the result is the concatenation, optionally de-duplicated in order")
     # SynCRN._run_tasks
     fi = rep.f(CRN, "SynCRN._run_tasks")
     pcs = [p for p in sites[(CRN, "SynCRN._run_tasks")] if p[0] == "executor.map"]
-    ser = [c for c in walk_local(fi.node) if isinstance(c, ast.Call) and norm(c.func) == "results.append" and isinstance(c.args[0], ast.Call)]
+    rr = [r for r in returns_of(fi.node) if isinstance(r.value, ast.Name)]
+    RES = rr[-1].value.id if rr else None
+    ser = [c for c in walk_local(fi.node) if isinstance(c, ast.Call) and norm(c.func) == f"{RES}.append" and isinstance(c.args[0], ast.Call)]
     if pcs and ser:
         k, c, callee, args, it, tgt, _ = pcs[0]
         sc = ser[0].args[0]
@@ -179,7 +206,7 @@ def agreement(rep, sites):
         rep.ob("O14.3", "R8", fi, ok, f"serial {norm(sc)} for {norm(lp[0].target) if lp else '?'} in {norm(lp[0].iter) if lp else '?'} / parallel ex.map({callee}, {it})",
                "network expansion: same worker over the same task list in both branches")
         # the parallel branch stores what the worker returned, unchanged
-        par = [c2 for c2 in walk_local(fi.node) if isinstance(c2, ast.Call) and norm(c2.func) == "results.append" and isinstance(c2.args[0], ast.Tuple)]
+        par = [c2 for c2 in walk_local(fi.node) if isinstance(c2, ast.Call) and norm(c2.func) == f"{RES}.append" and isinstance(c2.args[0], ast.Tuple)]
         ploop = [l for l in walk_local(fi.node) if isinstance(l, ast.For) and l.iter is c]
         ok2 = bool(par) and bool(ploop) and norm(par[0].args[0]) == norm(ploop[0].target) if par and ploop else False
         if par and ploop:
@@ -194,16 +221,28 @@ def agreement(rep, sites):
     # validators: single joblib site each, results consumed positionally
     fi = rep.f(AV, "AAMValidator.validate_smiles")
     for k, c, callee, args, it, tgt, _ in sites[(AV, "AAMValidator.validate_smiles")]:
-        ok = callee == "AAMValidator.check_pair" and args[:3] == [tgt, "mapped_col", "ground_truth_col"] and it == "mappings"
+        d_av = local_defs(fi.node)
+        pm_av = parent_map(fi.node)
+        col_loops = enclosing_loops(pm_av, c, fi.node)
+        col = norm(col_loops[0].target) if col_loops else None
+        it_src = {norm(d_.value) for d_ in d_av.get(it, []) if d_.kind == "assign"}
+        ok = callee == "AAMValidator.check_pair" and args[:3] == [tgt, col, "ground_truth_col"] and it_src == {"data", "data.to_dict('records')"}
         rep.ob("O14.3", "R8", fi, ok, f"{callee}({', '.join(args)}) for {tgt} in {it}", "validation checks every row once with that row's own columns", node=c)
     fi = rep.f(BL, "BalanceReactionCheck.dicts_balance_check")
     for k, c, callee, args, it, tgt, _ in sites[(BL, "BalanceReactionCheck.dicts_balance_check")]:
-        ok = callee == "self.dict_balance_check" and args == [tgt, "rsmi_column"] and it == "reactions"
+        ok = callee == "self.dict_balance_check" and args == [tgt, "rsmi_column"] and \
+            norm(origin(local_defs(fi.node), ast.Name(id=it, ctx=ast.Load()))) == "self.parse_input(input_data, rsmi_column)"
         rep.ob("O14.3", "R8", fi, ok, f"{callee}({', '.join(args)}) for {tgt} in {it}", "balance checking processes every reaction once with its own record", node=c)
     defs = local_defs(fi.node)
-    b = origin(defs, ast.Name(id="balanced", ctx=ast.Load()))
-    u = origin(defs, ast.Name(id="unbalanced", ctx=ast.Load()))
-    ok = norm(b).replace(" ", "") == "[rforrinresultsifr['balanced']]" and norm(u).replace(" ", "") == "[rforrinresultsifnotr['balanced']]"
+    rets = returns_of(fi.node)
+    ok = False
+    rm = pmatch("($b, $u)", rets[-1].value) if rets else None
+    pj = [p for p in sites[(BL, "BalanceReactionCheck.dicts_balance_check")] if p[0] == "joblib"]
+    if rm and pj:
+        b = origin(defs, ast.Name(id=rm["b"], ctx=ast.Load()))
+        u = origin(defs, ast.Name(id=rm["u"], ctx=ast.Load()))
+        mb, mu = pmatch("[$r for $r in $res if $r['balanced']]", b), pmatch("[$r for $r in $res if not $r['balanced']]", u)
+        ok = mb is not None and mu is not None and mb["res"] == mu["res"] and any(d_.value is pj[0][1] for d_ in defs.get(mb["res"], []))
     rep.ob("O14.3", "R7", fi, ok, "balanced / unbalanced", "the two result lists are order-preserving filters that together cover all results")
 
 
@@ -234,11 +273,17 @@ def effects(rep):
         rep.ob("O14.3", "R8", fn, False, n, "a per-entry worker must not write shared state (results would depend on batch order / process assignment)", node=n)
     # the worker's result depends on the entry only through its graph and the shared rule list
     wd = local_defs(worker.node)
-    g = origin(wd, ast.Name(id="g", ctx=ast.Load()))
-    ok = norm(g) == "self._to_graph(entry)"
-    rep.ob("O14.3", "R8", worker, ok, g, "each entry is converted on its own")
     ab = [c for c in walk_local(worker.node) if isinstance(c, ast.Call) and norm(c.func) == "self._apply_bulk"]
-    ok = bool(ab) and [norm(a) for a in ab[0].args] == ["g", "filtered", "invert"]
+    g = origin(wd, ab[0].args[0]) if ab and ab[0].args else None
+    ok = g is not None and norm(g) == f"self._to_graph({worker.params[0]})"
+    rep.ob("O14.3", "R8", worker, ok, g if g is not None else "g", "each entry is converted on its own")
+    ok = bool(ab) and len(ab[0].args) == 3 and isinstance(ab[0].args[0], ast.Name) and norm(ab[0].args[2]) == "invert"
+    if ok:
+        # the rule list is the shared one or its pre-filtered subset for this very graph
+        fsrc = origin(wd, ab[0].args[1])
+        rgs = [b_["rg"] for _, b_ in pfind("$rg = self._ensure_graph_rules($$r)", fi.node, into_nested=False)]
+        rg = rgs[0] if rgs else "?"
+        ok = norm(fsrc) == rg or (isinstance(fsrc, ast.IfExp) and norm(fsrc.orelse) == rg and f"RuleFilter({norm(ab[0].args[0])}, {rg}" in norm(fsrc.body))
     rep.ob("O14.3", "R8", worker, ok, ab[0] if ab else "_apply_bulk", "and the rules are applied to exactly that entry's graph")
 
 
@@ -253,16 +298,19 @@ def dedupe(rep):
         return
     lp = loops[0]
     x = norm(lp.target)
-    apps = [c for c in walk_local(fi.node) if isinstance(c, ast.Call) and call_name(c) in ("append", "insert", "extend", "sort", "reverse") and norm(c.func.value) == "out"]
+    rets = returns_of(fi.node)
+    OUT = norm(rets[-1].value) if rets and isinstance(rets[-1].value, ast.Name) else None
+    apps = [c for c in walk_local(fi.node) if isinstance(c, ast.Call) and call_name(c) in ("append", "insert", "extend", "sort", "reverse") and norm(c.func.value) == OUT]
     ok = len(apps) == 1 and call_name(apps[0]) == "append" and norm(apps[0].args[0]) == x
     rep.ob("O14.3", "R7", fi, ok, [norm(a) for a in apps], "the result is built only by appending the scanned element itself (sub-list in original order)")
     if apps:
-        gs = [(norm(t).replace(" ", ""), s) for t, s in guards_of(pm, apps[0], lp)]
-        rep.ob("O14.3", "R7", fi, gs == [(f"{x}notinseen", True)], f"append under {gs}", "an element is kept iff it was not seen before")
-        adds = [c for c in walk_local(lp) if isinstance(c, ast.Call) and norm(c.func) == "seen.add" and norm(c.args[0]) == x]
+        gs0 = guards_of(pm, apps[0], lp)
+        sm = pmatch(f"{x} not in $seen", gs0[0][0]) if len(gs0) == 1 and gs0[0][1] else None
+        gs = [(norm(t).replace(" ", ""), s) for t, s in gs0]
+        rep.ob("O14.3", "R7", fi, sm is not None, f"append under {gs}", "an element is kept iff it was not seen before")
+        adds = [c for c in walk_local(lp) if sm and isinstance(c, ast.Call) and norm(c.func) == f"{sm['seen']}.add" and norm(c.args[0]) == x]
         rep.ob("O14.3", "R7", fi, len(adds) == 1 and guards_of(pm, adds[0], lp) == guards_of(pm, apps[0], lp), adds[0] if adds else "seen.add", "and is then marked as seen")
-    rets = returns_of(fi.node)
-    rep.ob("O14.3", "R7", fi, bool(rets) and norm(rets[-1].value) == "out", rets[-1] if rets else "return", "the filtered list is returned (no set() round trip, no sort)")
+    rep.ob("O14.3", "R7", fi, OUT is not None and len(rets) == 1, rets[-1] if rets else "return", "the filtered list is returned (no set() round trip, no sort)")
 
 
 # ------------------------------------------------------------------ batching
@@ -281,7 +329,9 @@ def batching(rep):
         ok = None
     rep.ob("O14.4", "BATCH", bd, ok, lp.iter, "batches start at 0, step by batch_size and run to the end of the list")
     i = norm(lp.target)
-    apps = [c for c in walk_local(lp) if isinstance(c, ast.Call) and norm(c.func) == "batches.append"]
+    brets = returns_of(bd.node)
+    BOUT = norm(brets[-1].value) if brets else None
+    apps = [c for c in walk_local(lp) if isinstance(c, ast.Call) and norm(c.func) == f"{BOUT}.append"]
     ok = False
     if apps and isinstance(apps[0].args[0], ast.Subscript) and isinstance(apps[0].args[0].slice, ast.Slice):
         sl = apps[0].args[0].slice
@@ -294,23 +344,25 @@ def batching(rep):
     rep.ob("O14.4", "BATCH", bd, ok, apps[0] if apps else "batches.append", "each batch is the contiguous slice [i, i + batch_size): every entry lands in exactly one batch, order kept")
     ft = rep.f(BC, "BatchCluster.fit")
     pm = parent_map(ft.node)
-    bl = [l for l in walk_local(ft.node) if isinstance(l, ast.For) and norm(l.iter) == "batches"]
+    d = local_defs(ft.node)
+    bl = [l for l in walk_local(ft.node) if isinstance(l, ast.For) and isinstance(l.iter, ast.Name) and
+          any(d_.kind == "assign" and isinstance(d_.value, ast.Call) and call_name(d_.value) == "batch_dicts" for d_ in d.get(l.iter.id, []))]
     rep.need("BATCH", len(bl), 1, "batch loop in BatchCluster.fit")
     lp = bl[0]
+    frets = returns_of(ft.node)
+    fm = pmatch("($od, $ot)", frets[-1].value) if frets else None
+    bb = pall([f"$pd, $nt = self.cluster({norm(lp.target)}, $ot, rule_key, attribute_key)", "$od.extend($pd)", "$ot = $nt"], lp, fm) if fm else None
     cl = [c for c in walk_local(lp) if isinstance(c, ast.Call) and norm(c.func) == "self.cluster"]
-    ok = bool(cl) and [norm(a) for a in cl[0].args[:2]] == [norm(lp.target), "output_templates"]
-    rep.ob("O14.4", "BATCH", ft, ok, cl[0] if cl else "self.cluster", "each batch is classified against the templates accumulated so far")
-    ext = [c for c in walk_local(lp) if isinstance(c, ast.Call) and norm(c.func) == "output_data.extend"]
-    thr = [n for n in lp.body if isinstance(n, ast.Assign) and norm(n.targets[0]) == "output_templates"]
-    d = local_defs(ft.node)
-    up = [x for x in d.get("new_templates", []) if x.index is not None]
-    ok = bool(ext) and norm(ext[0].args[0]) == "processed_data" and bool(thr) and norm(thr[0].value) == "new_templates" and bool(up) and up[0].index == (1,)
+    rep.ob("O14.4", "BATCH", ft, bb is not None, cl[0] if cl else "self.cluster", "each batch is classified against the templates accumulated so far")
+    ok = bb is not None
     rep.ob("O14.4", "BATCH", ft, ok, "output_data.extend(processed_data); output_templates = new_templates", "results are concatenated in batch order and the templates are threaded to the next batch")
     exits = [n for n in walk_local(lp) if isinstance(n, (ast.Break, ast.Continue, ast.Return))]
     rep.ob("O14.4", "BATCH", ft, not exits, [type(e).__name__ for e in exits], "no batch is skipped")
     cu = rep.f(BC, "BatchCluster.cluster")
     l2 = [l for l in walk_local(cu.node) if isinstance(l, ast.For)]
-    ok = len(l2) == 1 and norm(l2[0].iter) == "data" and any(isinstance(n, ast.Assign) and "templates" in norm(n.targets[0]) and "self.lib_check(entry, templates" in norm(n.value) for n in l2[0].body)
+    D2, T2 = cu.params[1], cu.params[2]
+    ok = len(l2) == 1 and norm(l2[0].iter) == D2 and pall([f"$u, {T2} = self.lib_check({norm(l2[0].target)}, {T2}, rule_key, attribute_key)"], l2[0]) is not None \
+        and bool(returns_of(cu.node)) and norm(returns_of(cu.node)[-1].value) == f"({D2}, {T2})"
     rep.ob("O14.4", "BATCH", cu, ok, l2[0].iter if l2 else "for", "within a batch entries are classified one by one against the growing template list (same as one long batch)")
 
 
